@@ -201,9 +201,9 @@ def show_prog(p):
     return str(p)
 
 
-def eval_replay_supervised(run, name, path, total, pid, act=None, timeout=60, max_restarts=4):
-    """Replay in a child process that announces each case before running it; a hang (deadlock in a re-entrant handler) or an
-    abort is attributed to the announced case and the replay resumes after it (at most max_restarts times)."""
+def eval_replay_supervised(run, name, path, total, pid, act=None, timeout=45, max_restarts=4):
+    """Replay in a child process that announces each case before running it; a hang (no announcement for `timeout` seconds:
+    deadlock in a re-entrant handler) or an abort is attributed to the announced case and the replay resumes after it."""
     import subprocess
     core.build_harness("dev")
     recs = core.read_ndjson(path)
@@ -211,14 +211,11 @@ def eval_replay_supervised(run, name, path, total, pid, act=None, timeout=60, ma
     ran = mism = dc = 0
     while start < total:
         cmd = [core.vh_path(), "eval-replay", path, "--from", str(start), "--to", str(total), "--progress"] + (["--act", act] if act else [])
-        try:
-            p = subprocess.run(cmd, cwd=core.VERIF, stdout=subprocess.PIPE, stderr=subprocess.PIPE, text=True, timeout=timeout)
-            rc, out, timed = p.returncode, p.stdout, False
-        except subprocess.TimeoutExpired as e:
-            rc, timed = -1, True
-            out = e.stdout.decode() if isinstance(e.stdout, bytes) else (e.stdout or "")
+        rc, out, timed, errtxt = core.run_stall_watchdog(cmd, stall_s=timeout)
+        if timed:
+            rc = -1
         if rc == 2:
-            raise tlc.ToolError("eval-replay tool error: %s" % p.stderr[-500:])
+            raise tlc.ToolError("eval-replay tool error: %s" % errtxt[-500:])
         lines = []
         for l in out.splitlines():
             if l.startswith("{"):
